@@ -58,6 +58,7 @@ def check(ctx):
     repo = ctx.repo
     from . import generic as _gen
     _gen.language_traps(ctx, _gen.anchor_functions(repo, "C04"), "the property holds for every input, on every call")
+    _gen.rank_orders_values(ctx, repo.fn("dataiter.vector.Vector.rank"), "one summary row per distinct key, ascending by the group columns")
     I = interp(repo)
     for r, t in (("IDX-2", "one key tuple for sort / unique / select; ascending; single stable ordering"),
                  ("IDX-3", "index vectors are created on, and applied to, the frame they index; ordering of attach/sort"),
@@ -322,6 +323,7 @@ def check(ctx):
     uq = repo.fn(f"{DF}.unique")
     reps = [c for _, c in calls_in(uq) if isinstance(c.func, ast.Attribute) and c.func.attr == "replace_na"]
     if not reps:
+        _gen.bitpattern_keys(ctx, uq, "missing values compare equal to each other; one row per distinct key")
         raise AnalysisError("DataFrame.unique no longer normalises NaN/NaT with replace_na in its own body: idiom changed, re-confirm GRD-sentinel")
     per_col = False
     for rc in reps:
